@@ -4,11 +4,12 @@ conversion of TLC-simulated behaviours of specs/Link/Link.tla into scenarios.
 
 A scenario is a dict:
   cfg: n, ext (device numbers with the extended advertising commands), classic, seed, hci_delay,
-       link_delay, same_bytes
+       link_delay, same_bytes, slow ({device: [min, max]}: that device's HCI delays are drawn from this band)
   ops: list of
-    ("adv", d, kind, flav)  ("advstop", d)  ("scan", d, mode)
-    ("connect", d, tr, j, kind, own)     start Device.connect (not awaited)
-    ("send", d, j, tr)  ("disconnect", d, j, tr)   on d's connection to device j (waits for it, bounded)
+    ("adv", d, kind, flav)  ("advstop", d)  ("scan", d, mode)      kind: "pub" | "rnd" | "set" (advertising set with its own random address)
+    ("connect", d, tr, j, kind, own)     start Device.connect (not awaited); one per device and transport at a time
+    ("send", d, j, tr)  ("disconnect", d, j, tr)   on d's connection (tr = "sco": (e)SCO link) to device j (waits for it, bounded)
+    ("sco", d, j)                        d asks for an (e)SCO link on its BR/EDR connection to j
     ("wait", seconds)  ("settle",)
 """
 from __future__ import annotations
@@ -31,7 +32,7 @@ def run_scenario(sc, patch=None):
     async def main():
         w = World(cfg["n"], ext=set(cfg.get("ext", ())), classic=cfg.get("classic", False), seed=cfg.get("seed", 0),
                   hci_delay=cfg.get("hci_delay", 0.0), link_delay=cfg.get("link_delay", 0.0),
-                  same_bytes=cfg.get("same_bytes", False), patch=patch)
+                  same_bytes=cfg.get("same_bytes", False), patch=patch, slow=cfg.get("slow"))
         out["events"] = w.events
         out["errors"] = w.errors
         await w.power_on()
@@ -46,6 +47,19 @@ def run_scenario(sc, patch=None):
                 waited += 0.01
 
         calls = {}
+        closing = set()  # pairs whose BR/EDR connection was asked to disconnect
+        sco_state = {}  # frozenset({d, j}) -> "asked" | "closing"
+
+        def pending(d, tr):
+            return (d, tr) in calls and not calls[(d, tr)].done()
+
+        def sco_busy(d, j):
+            """an (e)SCO link between d and j is being set up, up, or being torn down (Link.tla: ScoLive)"""
+            st = sco_state.get(frozenset((d, j)))
+            if st is None:
+                return False
+            return w.find(d, j, "sco") is not None or w.find(j, d, "sco") is not None or st == "asked"
+
         for op in sc["ops"]:
             k = op[0]
             if k == "adv":
@@ -60,18 +74,34 @@ def run_scenario(sc, patch=None):
             elif k == "connect":
                 # one awaited connect per device (the model's `call`); where the real run went another way
                 # than the behaviour the scenario was derived from, the operation does not apply
-                if (op[1] in calls and not calls[op[1]].done()) or w.find(op[1], op[3], op[2]) is not None or w.find(op[3], op[1], op[2]) is not None:
+                # (the model's `call`: one per device and transport; no page while the controller has an LE create-connection pending)
+                if (pending(op[1], op[2]) or (op[2] == "br" and pending(op[1], "le"))
+                        or w.find(op[1], op[3], op[2]) is not None or w.find(op[3], op[1], op[2]) is not None):
                     out["skipped"].append(list(op))
                 else:
-                    calls[op[1]] = w.connect(*op[1:])
+                    if op[2] == "br":
+                        closing.discard(frozenset((op[1], op[3])))
+                    calls[(op[1], op[2])] = w.connect(*op[1:])
+                    await asyncio.sleep(0)
+            elif k == "sco":
+                c = await conn_of(op[1], op[2], "br")
+                if c is None or w.find(op[2], op[1], "br") is None or sco_busy(op[1], op[2]) or frozenset(op[1:3]) in closing:
+                    out["skipped"].append(list(op))
+                else:
+                    sco_state[frozenset(op[1:3])] = "asked"
+                    w.sco(op[1], c)
                     await asyncio.sleep(0)
             elif k in ("send", "disconnect"):
                 c = await conn_of(op[1], op[2], op[3])
-                if c is None:
-                    out["skipped"].append(list(op))
+                if c is None or (k == "disconnect" and op[3] == "br" and sco_busy(op[1], op[2])):
+                    out["skipped"].append(list(op))  # (the model leaves out an ACL disconnected under its (e)SCO link)
                 elif k == "send":
                     w.send(op[1], c)
                 else:
+                    if op[3] == "sco":
+                        sco_state[frozenset(op[1:3])] = "closing"
+                    elif op[3] == "br":
+                        closing.add(frozenset(op[1:3]))
                     w.disconnect(op[1], c)
                     await asyncio.sleep(0)
             elif k == "wait":
@@ -103,8 +133,11 @@ def run_scenario(sc, patch=None):
 KINDS = ("pub", "rnd")
 
 
-def _cfg(n, ext=(), classic=False, seed=0, hci_delay=0.004, link_delay=0.0, same_bytes=False):
-    return dict(n=n, ext=sorted(ext), classic=classic, seed=seed, hci_delay=hci_delay, link_delay=link_delay, same_bytes=same_bytes)
+def _cfg(n, ext=(), classic=False, seed=0, hci_delay=0.004, link_delay=0.0, same_bytes=False, slow=None):
+    c = dict(n=n, ext=sorted(ext), classic=classic, seed=seed, hci_delay=hci_delay, link_delay=link_delay, same_bytes=same_bytes)
+    if slow:
+        c["slow"] = {str(k): list(v) for k, v in slow.items()}
+    return c
 
 
 def pair(own, advk, flav, ext, closer, seed, **kw):
@@ -131,13 +164,14 @@ def pair_classic(closer, seed, **kw):
     return dict(name=f"pair:classic:closer={closer}", cfg=_cfg(3, classic=True, seed=seed, **kw), ops=ops)
 
 
-def star(own2, k2, own3, k3, seed, **kw):
+def star(own2, k2, own3, k3, seed, flav2="legacy", flav3="legacy", **kw):
     """1 is central to 2 and to 3, which advertise at the same time; interleaved data; 4 scans"""
-    ops = [("scan", 4, "passive"), ("adv", 2, k2, "legacy"), ("adv", 3, k3, "legacy"),
+    ops = [("scan", 4, "passive"), ("adv", 2, k2, flav2), ("adv", 3, k3, flav3),
            ("connect", 1, "le", 3, k3, own3), ("wait", 0.3), ("connect", 1, "le", 2, k2, own2), ("wait", 0.3),
            ("send", 1, 2, "le"), ("send", 1, 3, "le"), ("send", 3, 1, "le"), ("send", 2, 1, "le"), ("send", 1, 3, "le"), ("send", 1, 2, "le"),
            ("settle",), ("disconnect", 3, 1, "le"), ("wait", 0.05), ("send", 1, 2, "le"), ("send", 2, 1, "le"), ("settle",)]
-    return dict(name=f"star:{own2}:{k2}:{own3}:{k3}", cfg=_cfg(4, ext={3}, seed=seed, **kw), ops=ops)
+    ext = {3} | ({2} if flav2 == "ext" else set())
+    return dict(name=f"star:{own2}:{k2}:{own3}:{k3}" + (f":{flav2}:{flav3}" if (flav2, flav3) != ("legacy", "legacy") else ""), cfg=_cfg(4, ext=ext, seed=seed, **kw), ops=ops)
 
 
 def incoming_while_pending(own, k1, k3, seed, **kw):
@@ -173,6 +207,50 @@ def mixed(seed, **kw):
     return dict(name="mixed:le+classic", cfg=_cfg(3, classic=True, seed=seed, **kw), ops=ops)
 
 
+def sco_links(requester, closer, seed, **kw):
+    """an (e)SCO link on the BR/EDR connection 1-2, then - while it is up - further links on the controllers that hold it:
+    3 pages 2, 1 connects to 3 over LE, 3 pages 1; data everywhere; the (e)SCO link is disconnected; data again; one more
+    LE connection (a handle is free again)"""
+    a, b = (1, 2) if requester == 1 else (2, 1)
+    everywhere = [("send", 1, 2, "br"), ("send", 2, 1, "br"), ("send", 3, 2, "br"), ("send", 2, 3, "br"), ("send", 1, 3, "le"), ("send", 3, 1, "le"),
+                  ("send", 3, 1, "br"), ("send", 1, 3, "br")]
+    ops = [("connect", 1, "br", 2, "pub", "pub"), ("wait", 0.3), ("sco", a, b), ("wait", 0.3),
+           ("connect", 3, "br", 2, "pub", "pub"), ("wait", 0.3),
+           ("adv", 3, "rnd", "legacy"), ("connect", 1, "le", 3, "rnd", "rnd"), ("wait", 0.3),
+           ("connect", 3, "br", 1, "pub", "pub"), ("wait", 0.3)] + everywhere + [("settle",),
+           ("disconnect", closer, 3 - closer, "sco"), ("settle",)] + everywhere + [
+           ("adv", 2, "pub", "legacy"), ("connect", 3, "le", 2, "pub", "pub"), ("wait", 0.3), ("send", 3, 2, "le"), ("send", 2, 3, "le"), ("settle",),
+           ("disconnect", 1, 2, "br"), ("settle",)]
+    return dict(name=f"sco:requester={requester}:closer={closer}", cfg=_cfg(3, classic=True, seed=seed, **kw), ops=ops)
+
+
+BOTH_WAYS = [("send", 1, 2, "br"), ("send", 1, 2, "le"), ("send", 2, 1, "le"), ("send", 2, 1, "br"), ("send", 1, 2, "le"), ("send", 1, 2, "br")]
+
+
+def both_transports(variant, own, seed, **kw):
+    """1 and 2 are dual-mode; the LE side uses the public address, so one address names the peer on both transports.
+      le-first:        1 pages 2 (whose host is slow to accept) and connects to 2 over LE: the LE connection completes while the page is pending
+      classic-first:   1 pages 2 and connects to 2 over LE while 2 is silent: the BR/EDR connection completes while the LE connect is pending
+      incoming-classic: 1 connects to (silent) 2 over LE, 2 pages 1: an incoming BR/EDR connection from the peer the LE connect is for
+      incoming-le:     1 pages 2 (slow to accept), 2 connects to advertising 1 over LE: an incoming LE connection from the paged peer"""
+    slow = None
+    if variant == "le-first":
+        slow = {2: (0.2, 0.3)}
+        ops = [("adv", 2, "pub", "legacy"), ("wait", 0.2), ("connect", 1, "br", 2, "pub", "pub"), ("connect", 1, "le", 2, "pub", own), ("wait", 2.5)]
+    elif variant == "classic-first":
+        ops = [("connect", 1, "br", 2, "pub", "pub"), ("connect", 1, "le", 2, "pub", own), ("wait", 0.5), ("adv", 2, "pub", "legacy"), ("wait", 0.5)]
+    elif variant == "incoming-classic":
+        ops = [("connect", 1, "le", 2, "pub", own), ("wait", 0.05), ("connect", 2, "br", 1, "pub", "pub"), ("wait", 0.5), ("adv", 2, "pub", "legacy"), ("wait", 0.5)]
+    elif variant == "incoming-le":
+        slow = {2: (0.2, 0.3)}
+        ops = [("adv", 1, "pub", "legacy"), ("wait", 0.2), ("connect", 2, "le", 1, "pub", own), ("connect", 1, "br", 2, "pub", "pub"), ("wait", 2.5)]
+    else:
+        raise ValueError(variant)
+    ops += BOTH_WAYS + [("settle",), ("disconnect", 1, 2, "le"), ("settle",), ("send", 1, 2, "br"), ("send", 2, 1, "br"), ("settle",),
+                        ("disconnect", 2, 1, "br"), ("settle",)]
+    return dict(name=f"both-transports:{variant}:{own}", cfg=_cfg(3, classic=True, seed=seed, slow=slow, **kw), ops=ops)
+
+
 def scanning(mode, scanner_ext, k, flav, seed, **kw):
     """3 advertises (and scans), 1 scans in `mode`, 2 advertises with the other kind; nobody connects"""
     ext = ({1} if scanner_ext else set()) | ({3} if flav == "ext" else set())
@@ -183,10 +261,11 @@ def scanning(mode, scanner_ext, k, flav, seed, **kw):
 
 
 def reconnect(own, k, seed, **kw):
-    ops = [("adv", 2, k, "legacy"), ("connect", 1, "le", 2, k, own), ("wait", 0.3), ("send", 1, 2, "le"), ("settle",),
+    flav = "ext" if k == "set" else "legacy"
+    ops = [("adv", 2, k, flav), ("connect", 1, "le", 2, k, own), ("wait", 0.3), ("send", 1, 2, "le"), ("settle",),
            ("disconnect", 2, 1, "le"), ("settle",),
-           ("adv", 2, k, "legacy"), ("connect", 1, "le", 2, k, own), ("wait", 0.3), ("send", 1, 2, "le"), ("send", 2, 1, "le"), ("settle",)]
-    return dict(name=f"reconnect:{own}:{k}", cfg=_cfg(2, seed=seed, **kw), ops=ops)
+           ("adv", 2, k, flav), ("connect", 1, "le", 2, k, own), ("wait", 0.3), ("send", 1, 2, "le"), ("send", 2, 1, "le"), ("settle",)]
+    return dict(name=f"reconnect:{own}:{k}", cfg=_cfg(2, {2} if k == "set" else (), seed=seed, **kw), ops=ops)
 
 
 def catalogue(quick, seed):
@@ -207,6 +286,22 @@ def catalogue(quick, seed):
     out.append(incoming_while_pending("rnd", "rnd", "rnd", s + 9, same_bytes=True))
     for i in range(3 if quick else 8):
         out.append(incoming_while_pending_classic(s + 10 + i, hci_delay=0.02))
+    # extended advertising sets with a random address of their own: either own-address kind of the central, either side disconnects,
+    # next to an advertiser that uses the controller's random address; reconnect; scanners are told the set's address
+    out.append(pair("rnd", "set", "ext", {1, 2}, 1, s + 70))
+    out.append(pair("pub", "set", "ext", {2}, 2, s + 71))
+    out.append(pair("rnd", "set", "ext", {2}, 1, s + 72, link_delay=0.003))
+    out.append(star("rnd", "set", "pub", "rnd", s + 73, flav2="ext", flav3="ext"))
+    out.append(star("pub", "set", "rnd", "set", s + 74, flav2="ext", flav3="ext"))
+    out.append(scanning("active", True, "set", "ext", s + 75))
+    # (e)SCO links next to ACL connections of both transports
+    out.append(sco_links(1, 1, s + 80))
+    out.append(sco_links(2, 1, s + 81, link_delay=0.002))
+    out.append(sco_links(1, 2, s + 82, hci_delay=0.02))
+    # both transports between the same two devices, public addresses
+    for i, variant in enumerate(("le-first", "classic-first", "incoming-classic", "incoming-le")):
+        out.append(both_transports(variant, "pub", s + 90 + i))
+        out.append(both_transports(variant, "rnd" if i % 2 else "pub", s + 95 + i, link_delay=0.003))
     for k3 in KINDS:
         out.append(race(k3, s + 20))
     out.append(race("rnd", s + 21, link_delay=0.004))
@@ -216,7 +311,7 @@ def catalogue(quick, seed):
         for scanner_ext in (False, True):
             for k, flav in (("rnd", "legacy"), ("pub", "legacy"), ("pub", "ext")):
                 out.append(scanning(mode, scanner_ext, k, flav, s + 40))
-    for own, k in (("rnd", "rnd"), ("pub", "pub")):
+    for own, k in (("rnd", "rnd"), ("pub", "pub"), ("rnd", "set")):
         out.append(reconnect(own, k, s + 50))
     for tr in ("le", "br"):
         out.append(both_disconnect(tr, s + 60))
@@ -271,8 +366,13 @@ def behaviour_to_ops(beh, rng, adv_wait=ADV_INTERVAL_MS / 1000.0):
                 emit(("scan", d, b))
                 host_op = True
         for d, (a, b) in enumerate(zip(prev["call"], st["call"]), 1):
-            if a != b and b["on"]:
-                emit(("connect", d, b["tr"], b["ta"][0], b["ta"][1], b["own"]))
+            for tr in ("le", "br"):
+                if a[tr] != b[tr] and b[tr]["on"]:
+                    emit(("connect", d, tr, b[tr]["ta"][0], b[tr]["ta"][1], b[tr]["own"]))
+                    host_op = True
+        for b in st["conns"][len(prev["conns"]):]:
+            if b["tr"] == "sco":
+                emit(("sco", b["c"], b["p"]))
                 host_op = True
         for a, b in zip(prev["conns"], st["conns"]):
             for s in ("c", "p"):
